@@ -12,10 +12,21 @@
 
   **Label set (`legal`)**: `ro`, `br`, `env`, `approve`, `tick`, `crash` at any time, in any order, any number of
   times; `release rev` whenever the rollout is idle (Healthy, no release in progress) — so histories contain
-  any number of successive rollouts.  Not covered (hence `_partial`): a new release or a rollback *while* a
-  rollout is in progress (continuous release, rollback), deletion / disabling / pausing of the Rollout, step
-  jumps, plan edits, scaling, API faults inside a reconcile.  The walks of suite `closedloop` exercise those
-  too and compare them with the model step by step; only the invariant is not proved for them.
+  any number of successive rollouts.  For "no reconciler panics" (`loop_total_delete_partial`) the label set is
+  widened by `delete` at any point (`legalD`).  Not covered (hence `_partial`): a new release or a rollback
+  *while* a rollout is in progress (continuous release, rollback — where `loop_supervised_full_FALSE` shows a real
+  defect of the unchanged code, known finding `supersedeRace`), disabling / pausing of the Rollout, step jumps, plan
+  edits, scaling, API faults inside a reconcile.  The walks of suite `closedloop` exercise release / rollback /
+  delete / faults too and compare them with the model step by step; only the invariants are not proved for them.
+
+  Not proved: progress of the composed system (C07 `loop_progress` / `loop_terminates`: "from every reachable
+  InRolling state of a healthy run, a bounded number of rounds `[ro, br, env, approve, tick]` strictly decreases an
+  explicit measure; the rollout is Healthy after at most c·(#steps + 4) rounds").  It needs a round-level invariant
+  (what each sub-state of the executor implies about the workload at round boundaries) and about 25 one-round
+  lemmas; the component convergence theorems exist (`RV.Props.Traffic.doTR_converges`, `finalising_converges`,
+  `RV.Props.Executor.verifying_becomes_ready`, `RV.Props.C07.desKnob_suffices`).  What is checked instead: every
+  healthy fair run of the REAL controllers ends within 20·(#steps + 4) rounds (oracle `C07.loop_terminates`), and
+  concrete model histories run to Healthy by kernel evaluation (the tests at the end of this file).
 -/
 import RV.Lemmas.ClosedLoopStepRo
 import RV.Lemmas.ClosedLoopStepBr
